@@ -29,10 +29,18 @@ def run(tier, seed):
         dict(name="C13_warm_moves", consts=ec.consts({"add", "rmbuf", "addbuf", "cbadd"} | (set() if q else {"drain"}), 5, wa=509, wb=2048,
                                                     data=("a", "b"), nsel=(1, 2, 9), cbmode=1, warm=3)),
     ]
+    # callbacks that modify the buffer they are registered on from inside the callback (drain everything / add one symbol,
+    # armed for one invocation): every nested report is predicted; immediate and deferred delivery
+    gen += [
+        dict(name="C13_exh_script_imm", consts=ec.consts({"add", "drain", "cbadd", "cbscript"}, 4, wa=37, wb=1021, data=("bLa",), nsel=(9,), cbmode=1),
+             stride=3 if q else 1),
+        dict(name="C13_exh_script_def", consts=ec.consts({"add", "drain", "cbadd", "cbscript", "loop"}, 4, wa=37, wb=1021, data=("bLa",), nsel=(9,), cbmode=2),
+             stride=4 if q else 1),
+    ]
     for mode in (1, 2):
         for (wa, wb) in ([(37, 331)] if q else [(1, 1), (37, 331), (1021, 4099)]):
             gen.append(dict(name="C13_rand_m%d_%d_%d" % (mode, wa, wb),
-                            consts=ec.consts(MUT | CB | ({"nodefer"} if mode == 1 else {"loop"}), 18 if q else 30, wa=wa, wb=wb,
+                            consts=ec.consts(MUT | CB | {"cbscript"} | ({"nodefer"} if mode == 1 else {"loop"}), 18 if q else 30, wa=wa, wb=wb,
                                              data=("", "a", "b", "aCL", "L", "bLa"), nsel=(0, 1, 2, 5, 9), sizes=(0, 2000),
                                              maxlen=8, cbmode=mode),
                             simulate=8 if q else 60, depth=90))
@@ -49,14 +57,22 @@ def run(tier, seed):
         "mc": [("C13_mc_imm", ec.consts((SMALL if q else MUT) | CB | {"nodefer"}, 3, wa=2, wb=3, data=("a", "aCL"), nsel=(1, 9), sizes=(0,), cbmode=1)),
                ("C13_mc_def", ec.consts((SMALL if q else MUT) | CB | {"loop"}, 3, wa=2, wb=3, data=("a", "aCL"), nsel=(1, 9), sizes=(0,), cbmode=2))],
         "gen": gen,
-        "need_ops": ["cbadd", "cbdel", "cbflag", "loop", "add", "drain", "rmbuf", "readln", "addbuf"],
+        "need_ops": ["cbadd", "cbdel", "cbflag", "cbscript", "loop", "add", "drain", "rmbuf", "readln", "addbuf"],
+        "need_hist": {
+            # a scripted callback really re-entered: a call with >= 2 reports to the same callback
+            "C13_exh_script_imm": lambda h: any(len(s["o"].get("cb", [])) >= 2 and s["a"] in ("add", "drain") for s in h) and any(s["a"] == "cbscript" for s in h),
+            "C13_exh_script_def": lambda h: any(len(s["o"].get("cb", [])) >= 2 and s["a"] == "loop" for s in h) and any(s["a"] == "cbscript" for s in h),
+            # remove_buffer from a multi-chain source taking at least the first chain but not everything, callback on the destination
+            "C13_warm_moves": lambda h: [s["a"] for s in h[:3]] == ["add"] * 3 and h[3]["a"] == "cbadd" and h[3]["b"] == 2
+            and h[4]["a"] == "rmbuf" and h[4]["b"] == 1 and h[4]["s"] == 2 and h[4]["n"] == 2 and len(h[4]["o"].get("cb", [])) == 1},
         "rule": "Up to 2 callbacks per buffer (2 buffers), added/removed/enabled/disabled (and NODEFER-flagged) at any point; "
                 "every evbuffer_cb_info (orig_size, n_added, n_deleted) of every invocation, in invocation order, is compared "
                 "with the specification after every call, for immediate delivery and for deferred delivery through a real "
                 "event_base (event_base_loop(NONBLOCK) as the 'loop' call); each report must also satisfy "
                 "orig+added-deleted = evbuffer_get_length at that moment. TLC decides LedgerExact / NothingPending / "
                 "DisabledSilent / LoopFlushes / ReportConsistent on the bounded model.",
-        "assumptions": ["callbacks do not modify the buffer or the callback list from inside the callback (not generated)",
+        "assumptions": ["a callback that modifies its buffer from inside (scripts drainall / adda, one invocation per arming) is the last one "
+                        "in invocation order; callbacks never change the callback list or another buffer from inside",
                         "EVBUFFER_CB_NODEFER (internal flag value 2) is set through evbuffer_cb_set_flags"],
     }
     return ec.standard_run("C13", tier, seed, plan)
